@@ -114,7 +114,10 @@ class IdentifierStripper(NodeTransformer):
     def visit_Attribute(self, node: ast.Attribute) -> ast._Node:
         """:meta private:"""
         if node.owner == self.strip:
-            return ast.Identifier(node.attr)
+            # A qualified segment (`x/ns.a`) becomes the identifier the parser
+            # builds for `ns.a`: the name with its namespace split off.
+            *namespace, name = node.attr.split(".")
+            return ast.Identifier(name, tuple(namespace))
         elif isinstance(node.owner, ast.Attribute):
             return ast.Attribute(self.visit(node.owner), node.attr)
 
